@@ -27,10 +27,15 @@ PROPS = {
         ],
     },
     'C08': {
-        'units': ['unify', 'subst'],
-        'functions': ['substitution_set.rs::get_ground_term', 'substitution_set.rs::is_ground_variable'],
-        'oracles': {'*': 'c08_cycle'},
-        'not_covered': ['termination of replace_variables / Display (they recurse through structures)'],
+        'units': ['unify', 'subst', 'replace'],
+        'functions': ['substitution_set.rs::get_ground_term', 'substitution_set.rs::is_ground_variable', 'unifiable.rs::Unifiable::replace_variables'],
+        'oracles': {'unifiable.rs::Unifiable::replace_variables': 'c08_resolve', '*': 'c08_cycle'},
+        'not_covered': [
+            "'resolving answers terminates' is proved for replace_variables (unit replace: decreases = size of the term's value under a solution of the bindings, then a rank along variable chains) under the statement's proviso "
+            "'needs no occurs check' = the bindings have a finite solution (solvable) and variable chains end (acyclic, the invariant unify is proved to maintain); that unify preserves solvability is not proved (it does not: $X = f($X) succeeds)",
+            "'printing' (Display for Unifiable) recurses on the structure of one term only and is not under contract; format_solution (solutions.rs) is not under contract",
+            'termination of unify itself (exec_allows_no_decreases_clause)',
+        ],
     },
     'C09': {
         'units': ['unify'],
